@@ -3,6 +3,8 @@ package vc
 import (
 	"fmt"
 	"go/types"
+
+	"golang.org/x/tools/go/ssa"
 	"sort"
 	"strings"
 )
@@ -186,6 +188,28 @@ func (e *specEnv) callExpr(n *ECall, hint types.Type) sv {
 		}
 		sfail("conversion %s(%s)", n.Fun, x.typ)
 	}
+	if sym, ok := e.ghost[n.Fun]; ok {
+		argn(1)
+		return sv{Val: Val{t: "(" + sym + " " + e.term(e.eval(n.Args[0], tInt), tInt) + ")", typ: tInt}}
+	}
+	if n.Fun == "call" {
+		if len(n.Args) < 1 {
+			sfail("call(f, args...)")
+		}
+		f := e.eval(n.Args[0], nil)
+		if f.fn == nil || len(f.binds) > 0 {
+			sfail("call() needs a statically known function without captured variables")
+		}
+		sym, ptypes, rt := u.pureFnSymbol(f.fn)
+		if len(n.Args)-1 != len(ptypes) {
+			sfail("call(%s): wrong number of arguments", f.fn.Name())
+		}
+		parts := []string{sym}
+		for i, a := range n.Args[1:] {
+			parts = append(parts, e.term(e.eval(a, ptypes[i]), ptypes[i]))
+		}
+		return sv{Val: Val{t: "(" + strings.Join(parts, " ") + ")", typ: rt}}
+	}
 	// spec functions
 	sf, ok := u.eng.CS.Specs[n.Fun]
 	if !ok {
@@ -245,6 +269,17 @@ func (u *Unit) compileSpec(sf *SpecFn) *compiledSpec {
 		}
 		u.emit("(declare-fun %s (%s) %s)", q(sf.Name), strings.Join(sig, " "), u.sortOf(rt))
 		cs.busy = false
+		if len(sig) > 0 {
+			var bs, ns []string
+			for i, t := range cs.params {
+				ns = append(ns, fmt.Sprintf("x!%d", i))
+				bs = append(bs, fmt.Sprintf("(x!%d %s)", i, u.sortOf(t)))
+			}
+			app := "(" + q(sf.Name) + " " + strings.Join(ns, " ") + ")"
+			if ti := u.typeInvariant(app, rt, 0); ti != "" {
+				u.emit("(assert (forall (%s) (! %s :pattern (%s))))", strings.Join(bs, " "), ti, app)
+			}
+		}
 		for _, ax := range sf.Axioms {
 			env := &specEnv{u: u, st: &state{over: map[string]string{}, base: &recProv{keys: map[string]bool{}}}, vars: map[string]Val{}, pkgPath: sf.PkgPath}
 			env.old = env.st
@@ -287,4 +322,67 @@ func (u *Unit) compileSpec(sf *SpecFn) *compiledSpec {
 	u.emit("(%s %s (%s) %s %s)", kw, q(sf.Name), strings.Join(sig, " "), u.sortOf(rt), body)
 	cs.busy = false
 	return cs
+}
+
+// pureFnSymbol: an uninterpreted function standing for the result of a pure Go function,
+// axiomatised by that function's (separately verified) contract.
+func (u *Unit) pureFnSymbol(fn *ssa.Function) (string, []types.Type, types.Type) {
+	ct := u.eng.ContractFor(fn)
+	if ct == nil || !ct.Pure {
+		sfail("call(): %s has no contract marked pure", fn.Name())
+	}
+	if fn.Signature.Results().Len() != 1 {
+		sfail("call(): %s must have exactly one result", fn.Name())
+	}
+	sym := q("fnres!" + fn.Name())
+	var ptypes []types.Type
+	for _, p := range fn.Params {
+		ptypes = append(ptypes, p.Type())
+	}
+	rt := fn.Signature.Results().At(0).Type()
+	if u.declared["fn:"+sym] {
+		return sym, ptypes, rt
+	}
+	u.declared["fn:"+sym] = true
+	var sorts, binders, names []string
+	rp := &recProv{keys: map[string]bool{}}
+	env := &specEnv{u: u, st: &state{over: map[string]string{}, base: rp}, vars: map[string]Val{}, pkgPath: ct.PkgPath, callee: fn}
+	env.old = env.st
+	var tis []string
+	for i, p := range fn.Params {
+		srt := u.sortOf(ptypes[i])
+		sorts = append(sorts, srt)
+		nm := q("a!" + p.Name())
+		names = append(names, nm)
+		binders = append(binders, "("+nm+" "+srt+")")
+		env.vars[p.Name()] = Val{t: nm, typ: ptypes[i]}
+		if ti := u.typeInvariant(nm, ptypes[i], 0); ti != "" {
+			tis = append(tis, ti)
+		}
+	}
+	u.emit("(declare-fun %s (%s) %s)", sym, strings.Join(sorts, " "), u.sortOf(rt))
+	app := "(" + sym + " " + strings.Join(names, " ") + ")"
+	if len(names) == 0 {
+		app = sym
+	}
+	env.results = []Val{{t: app, typ: rt}}
+	var pres, posts []string
+	pres = append(pres, tis...)
+	for _, rq := range ct.Requires {
+		pres = append(pres, env.term(env.eval(rq.E, tBool), tBool))
+	}
+	for _, en := range ct.Ensures {
+		posts = append(posts, env.term(env.eval(en.E, tBool), tBool))
+	}
+	if ti := u.typeInvariant(app, rt, 0); ti != "" {
+		posts = append(posts, ti)
+	}
+	if len(rp.keys) > 0 {
+		sfail("call(): contract of %s reads the heap (%v)", fn.Name(), sortedKeys(rp.keys))
+	}
+	if len(posts) > 0 && len(names) > 0 {
+		u.emit("(assert (forall (%s) (! (=> (and true %s) (and true %s)) :pattern (%s))))", strings.Join(binders, " "), strings.Join(pres, " "), strings.Join(posts, " "), app)
+	}
+	u.note("result of pure function %s represented by an uninterpreted function axiomatised by its contract", fn.Name())
+	return sym, ptypes, rt
 }
